@@ -19,11 +19,18 @@ type Params struct {
 	Actors  string
 	PreInit bool
 	Slow    bool // the subscribers' Send contains a scheduling point (a slow client)
-	Preempt int
+	// Replayer: "" none; "ok" a recording replayer; "putpanic" / "replaypanic": its first Put / Replay panics
+	// (Joe recovers and stops using it); "puterr": its first Put returns an error.
+	Replayer string
+	Preempt  int
 }
 
 func (p Params) Name() string {
-	return fmt.Sprintf("%s-preinit%v-slow%v-pb%d", p.Actors, p.PreInit, p.Slow, p.Preempt)
+	rp := ""
+	if p.Replayer != "" {
+		rp = "-rep" + p.Replayer
+	}
+	return fmt.Sprintf("%s-preinit%v-slow%v-pb%d%s", p.Actors, p.PreInit, p.Slow, p.Preempt, rp)
 }
 
 type shutRec struct {
@@ -46,6 +53,16 @@ func body(p Params) func() {
 		w := &world{}
 		vrt.SetUser(w)
 		j := &sse.Joe{}
+		switch p.Replayer {
+		case "ok":
+			j.Replayer = &jh.Replayer{}
+		case "putpanic":
+			j.Replayer = &jh.Replayer{PutFailAt: 1, PutFailKind: 1}
+		case "replaypanic":
+			j.Replayer = &jh.Replayer{ReplayFailAt: 1, ReplayFailKind: 1}
+		case "puterr":
+			j.Replayer = &jh.Replayer{PutFailAt: 1}
+		}
 		if p.PreInit {
 			jh.PreInit(j)
 		}
@@ -145,7 +162,7 @@ func check(r *vrt.Result) string {
 		}
 	}
 	for i, e := range w.PubErrs {
-		if e != nil && e != sse.ErrProviderClosed {
+		if e != nil && e != sse.ErrProviderClosed && e != jh.ErrReplay {
 			return fmt.Sprintf("Publish #%d returned %v, want nil or ErrProviderClosed", i+1, e)
 		}
 	}
@@ -236,12 +253,33 @@ func Scenarios(tier string) []run.Scenario {
 			}
 		}
 	}
+	// with a replayer: healthy, failing once, or panicking once in Put / Replay (Joe drops it and carries on)
+	for _, rp := range []string{"ok", "puterr", "putpanic", "replaypanic"} {
+		for size := 2; size <= 3; size++ {
+			var ms []string
+			multisets("scpqd", size, "", &ms)
+			for _, a := range ms {
+				if strings.Count(a, "d") != 1 || strings.Count(a, "q") > 1 {
+					continue
+				}
+				if (rp == "putpanic" || rp == "puterr") && !strings.ContainsAny(a, "pq") || rp == "replaypanic" && !strings.ContainsAny(a, "sc") {
+					continue
+				}
+				if !thorough && size == 3 && rp == "ok" {
+					continue
+				}
+				p := Params{Actors: a, PreInit: true, Replayer: rp, Preempt: -1}
+				out = append(out, run.Scenario{Name: p.Name(), Body: body(p), Check: check, Sig: run.NormSig, Summary: summary,
+					Opts: vrt.Options{PreemptBound: -1, FaultBound: -1, OrderBound: -1, Prune: true, Race: true}})
+			}
+		}
+	}
 	return out
 }
 
 var Check = &run.Check{
 	ID: "C07", Level: "model_checking",
-	Rule: "Scenarios: every multiset of up to 4 actors (quick: all of size <= 3 and the four-actor ones with Joe pre-initialised, fast clients, at most two subscribers and single publishes) from {Subscribe, Subscribe+cancel, Publish, 2xPublish, Shutdown(background), Shutdown(ctx)+cancel} containing a Shutdown, x Joe initialised beforehand or by the racing calls x fast/slow subscribers, followed by late Subscribe/Publish/Shutdown calls; all interleavings (unbounded, state-key pruning). Termination is decided by the deadlock detector, not by a timeout.",
+	Rule: "Scenarios: every multiset of up to 4 actors (quick: all of size <= 3 and the four-actor ones with Joe pre-initialised, fast clients, at most two subscribers and single publishes) from {Subscribe, Subscribe+cancel, Publish, 2xPublish, Shutdown(background), Shutdown(ctx)+cancel} containing a Shutdown, x Joe initialised beforehand or by the racing calls x fast/slow subscribers, followed by late Subscribe/Publish/Shutdown calls; the multisets of 2-3 actors also with a replayer that is healthy, fails once, or panics once in Put or in Replay; all interleavings (unbounded, state-key pruning). Termination is decided by the deadlock detector, not by a timeout.",
 	Assumptions: []string{
 		"schedules are explored at the granularity of synchronisation operations under sequential consistency (DESIGN.md 2.1)",
 		"subscribers' Send/Flush return (the property's proviso)",
